@@ -498,3 +498,24 @@ Proof.
   - inversion Hb; auto.
   - inversion Hb; auto.
 Qed.
+
+Theorem observers :
+  (forall progs s h1 t o r h2, reach bq_body (init_sys [] progs) s -> hist s = h1 ++ (t, o, r) :: h2 ->
+     bq_puts h1 = rets h1 ++ bq_before h1 /\
+     match o with
+     | BPut _ => r = RUnit
+     | BTake => exists x q', bq_before h1 = x :: q' /\ r = RVal x
+     | BDrain => r = RList (bq_before h1)
+     | BSize => r = RSize (length (bq_before h1))
+     end) /\
+  (forall cap progs s h1 t o r h2, reach (bbq_body cap) (init_sys [] progs) s -> hist s = h1 ++ (t, o, r) :: h2 ->
+     bbq_puts h1 = rets h1 ++ bbq_before h1 /\ length (bbq_before h1) <= cap /\
+     match o with
+     | QPut _ => r = RUnit /\ length (bbq_before h1) < cap
+     | QTake => exists x q', bbq_before h1 = x :: q' /\ r = RVal x
+     | QSize => r = RSize (length (bbq_before h1))
+     | QEmpty => r = RBool (Nat.eqb (length (bbq_before h1)) 0)
+     | QFull => r = RBool (Nat.eqb (length (bbq_before h1)) cap)
+     | QCapacity => r = RSize cap
+     end).
+Proof. split; [exact bq_observers|exact bbq_observers]. Qed.
